@@ -63,7 +63,7 @@ def vwap_within_limit(so, price):
             or (so.order.side == "LAY" and so.average_price_matched <= price and vwap(so) <= price + 0.005))
 
 
-@contract("flumine/simulation/simulatedorder.py::SimulatedOrder._process_price_matched_vwap", tags=["C05", "C04"])
+@contract("flumine/simulation/simulatedorder.py::SimulatedOrder._process_price_matched_vwap", tags=["C05", "C04", "C08"])
 def _(self, publish_time: REAL, price: REAL, size: MONEY, available: ListOf(Ref("PriceSize")), min_fill_size: REAL):
     requires("limit_order", is_limit_so(self))
     requires("sides", self.order.side == "BACK" or self.order.side == "LAY")
